@@ -75,9 +75,9 @@ func runSolver(sp solverSpec, script string, timeoutS int) solveOut {
 	return solveOut{status: st, out: s, secs: secs, solver: sp.name}
 }
 
-func obligScript(q *Q, o *Oblig, model bool) string {
+func obligScript(q *Q, o *Oblig, model bool, variant string) string {
 	var b strings.Builder
-	b.WriteString(q.script(o.UpTo))
+	b.WriteString(q.script(o.UpTo, variant))
 	b.WriteString("(assert " + o.Guard.S + ")\n")
 	if o.Expect != "sat" {
 		b.WriteString("(assert (not " + o.Goal.S + "))\n")
@@ -99,16 +99,32 @@ func solveOblig(q *Q, o *Oblig, timeoutS int) {
 	if o.Status != "" {
 		return
 	}
-	script := obligScript(q, o, true)
 	var tried []string
-	for _, sp := range solverList(timeoutS) {
-		sc := script
+	type attempt struct {
+		sp      solverSpec
+		variant string
+	}
+	sl := solverList(timeoutS)
+	usesStrEq := strings.Contains(o.Goal.S, "str_eq") || strings.Contains(o.Guard.S, "str_eq") || strings.Contains(strings.Join(q.lines[:o.UpTo], "\n"), "str_eq")
+	var attempts []attempt
+	attempts = append(attempts, attempt{sl[0], "define"})
+	if usesStrEq {
+		attempts = append(attempts, attempt{sl[0], "axioms"})
+	}
+	attempts = append(attempts, attempt{sl[1], "define"})
+	if usesStrEq {
+		attempts = append(attempts, attempt{sl[1], "axioms"})
+	}
+	attempts = append(attempts, attempt{sl[2], "define"})
+	for _, at := range attempts {
+		sp := at.sp
+		sc := obligScript(q, o, true, at.variant)
 		if sp.name == "cvc5" {
-			sc = forCvc5(script)
+			sc = forCvc5(sc)
 		}
 		r := runSolver(sp, sc, timeoutS)
 		o.Secs += r.secs
-		tried = append(tried, sp.name+":"+r.status)
+		tried = append(tried, sp.name+"/"+at.variant+":"+r.status)
 		if o.Expect == "sat" {
 			switch r.status {
 			case "sat":
